@@ -198,12 +198,12 @@ func c06bRun(r *mc.Report, sc *c06bScenario, c *mc.Ctx) (outcome string) {
 			}
 		}
 		last := seen[len(seen)-1]
-		outcome = fmt.Sprintf("items=%d radiusMax=%v errs=%v obs=%d", len(last.items), last.radius.Eq(storage.MaxDistance), es, len(seen))
+		outcome = fmt.Sprintf("items=%d radiusMax=%v errs=%v obs=%d", len(last.items), last.radius.Eq(maxU256), es, len(seen))
 		if os.Getenv("VERIF_DEBUG") != "" && len(last.items) > 0 {
 			outcome += fmt.Sprintf(" DBG far=%s radius=%s", hx(last.items[len(last.items)-1].K), last.radius.Hex())
 		}
 		for _, o := range seen[1 : len(seen)-1] {
-			outcome += fmt.Sprintf("|%d,%v", len(o.items), o.radius.Eq(storage.MaxDistance))
+			outcome += fmt.Sprintf("|%d,%v", len(o.items), o.radius.Eq(maxU256))
 		}
 	})
 	if msg != "" {
